@@ -134,6 +134,10 @@ pub enum Step {
     /// searching / reducing adaptors on a clone of a shared iterator: position, rposition, find, rfind,
     /// max_by_key, min_by_key, all, any, Iterator::eq
     Search,
+    /// `position(..)` / `rposition(..)` for the middle remaining element, called on the iterator itself
+    /// (by `&mut`), which must then continue right after / right before the match
+    FindMid,
+    RFindMid,
 }
 
 #[derive(Debug, Clone, Copy, PartialEq, Eq, Hash, Serialize, Deserialize)]
@@ -419,6 +423,8 @@ pub fn render_steps(st: &[Step]) -> String {
             Step::RFold => "rfold".to_string(),
             Step::RevLast => "rev().last()".to_string(),
             Step::Search => "search".to_string(),
+            Step::FindMid => "position(mid)".to_string(),
+            Step::RFindMid => "rposition(mid)".to_string(),
         })
         .collect::<Vec<_>>()
         .join(",")
